@@ -392,7 +392,7 @@ theorem unmodelled_triple {R : St → Prop} (hR : Stable R) (w : String) : Tripl
   unfold unmodelled
   exact Triple.bind (Q := fun _ => R) (Triple.quietS hR _ (quiet_emit _)) fun _ => Triple.retR _ (fun _ h => h)
 
-theorem iterSlots_triple {R : St → Prop} (f : ModId → Prog Int) (hf : ∀ m, Triple R (f m) (fun _ => R)) :
+theorem iterSlots_triple {R : St → Prop} (hR : Stable R) (f : ModId → Prog Int) (hf : ∀ m, Triple R (f m) (fun _ => R)) :
     ∀ (slots : List (Nat × Bool)) (again : Option Nat), Triple R (iterSlots f slots again) (fun _ => R) := by
   intro slots
   induction slots with
@@ -418,7 +418,10 @@ theorem iterSlots_triple {R : St → Prop} (f : ModId → Prog Int) (hf : ∀ m,
           · intro _
             refine Triple.bind Triple.get fun s' => ?_
             apply Triple.ite
-            · intro _; exact Triple.weaken (ih (some i)) (fun _ _ h => h.2) (fun _ _ _ h => h)
+            · intro _
+              apply Triple.ite
+              · intro _; exact Triple.weaken (unmodelled_triple hR _) (fun _ _ h => h.2) (fun _ _ _ h => h)
+              · intro _; exact Triple.weaken (ih (some i)) (fun _ _ h => h.2) (fun _ _ _ h => h)
             · intro _
               apply Triple.ite
               · intro _; exact Triple.retR _ (fun _ h => h.2)
@@ -431,7 +434,7 @@ theorem iterMods_triple {R : St → Prop} (hR : Stable R) (f : ModId → Prog In
   apply Triple.ite
   · intro _; exact Triple.retR _ (fun _ h => h.2)
   · intro _
-    refine Triple.weaken (iterSlots_triple _ (fun m => ?_) _ _) (fun _ _ h => h.2) (fun _ _ _ h => h)
+    refine Triple.weaken (iterSlots_triple hR _ (fun m => ?_) _ _) (fun _ _ h => h.2) (fun _ _ _ h => h)
     refine Triple.bind (Q := fun _ => R) (hf m) fun r => ?_
     refine Triple.bind Triple.get fun s' => ?_
     cases s'.ctx with
